@@ -255,7 +255,12 @@ def examine(case: dict, ctx) -> Outcome:
         return out
     try:
         J = sm.jacobian()
-        Jn = np.array(sympy.N(J.xreplace(sub)).tolist(), dtype=float)
+        Jc = np.array(sympy.N(J.xreplace(sub)).tolist(), dtype=complex)
+        if not np.all(np.isfinite(Jc)) or np.any(np.abs(Jc.imag) > 0):
+            # the derivative does not exist at this point (sqrt at 0, 0**x * log 0, ...): nothing to compare
+            out.classes.append("jacobian-nonfinite-at-singular-point")
+            return out
+        Jn = Jc.real.astype(float)
     except Exception as e:  # noqa: BLE001
         out.bad(f"jacobian-not-evaluable:{type(e).__name__}:{root}", error=repr(e)[:200])
         return out
